@@ -539,7 +539,7 @@ func init() {
 		return c19Res(dirhash.HashDir(dir, m.Path+"@"+m.Version, dirhash.Hash1))
 	}
 	register(&Prop{ID: "C19", Gen: genC19, Oracle: oracleC19,
-		Rule: "file sets of 0-12 (name, content) pairs from pools (unicode, spaces, double spaces, prefixes of each other, case pairs, newline/NUL/0xff names, hex-looking names, empty and equal contents, SHA-256 block-boundary lengths) and their permutations; real directories (trees of depth <= 3, weird prefixes) and real zips (archive/zip with duplicates and directory entries; zip.Create module zips extracted by zip.Unzip); `open` readers that deliver in short reads / data with io.EOF / empty reads; one file of 32 KiB-70 KiB (flate window, io.Copy buffer, 64 KiB boundaries) in some zips and directories; directories named relative to a working directory (., ../c19root, c19root, sub/..) with top-level dot names; non-trivial = at least two files or a refusal path; distinct by op line"})
+		Rule: "file sets of 0-12 (name, content) pairs from pools (unicode, spaces, double spaces, prefixes of each other, case pairs, newline/NUL/0xff names, hex-looking names, empty and equal contents, SHA-256 block-boundary lengths) and their permutations; real directories (trees of depth <= 3, weird prefixes) and real zips (archive/zip with duplicates and directory entries; zip.Create module zips extracted by zip.Unzip); `open` readers that deliver in short reads / data with io.EOF / empty reads; one file of 32 KiB-70 KiB (flate window, io.Copy buffer, 64 KiB boundaries) in some zips and directories; directories named relative to a working directory (., ../c19root, c19root, sub/..) with top-level dot names; trees and module zips with regular files below specially named directories (.git, .hg, .svn, .bzr, vendor, testdata, _x, .x) at depth 1-4, HashDir/HashZip against the formula over the files actually present; non-trivial = at least two files or a refusal path; distinct by op line"})
 }
 
 // ---- generators
@@ -681,6 +681,61 @@ func c19Shuffle(r *Rand, names, contents []string) ([]string, []string) {
 var c19FsElems = []string{"a", "b", "A", "a.go", "b.go", "a-b", "a.b", "a0", "ab", "a b", "a  b", "é", "日本", ".a", ".hidden", "a!", "sub", "x",
 	"go.mod", "\xff", "a\\b", "c19root", "..a", "a..", "-", "~", "a\nb"}
 
+// c19SpecialElems (gap r4-C19-b): path elements that OTHER packages and tools treat specially - the
+// version-control directories zip.CreateFromDir leaves out (.git, .hg, .svn, .bzr), vendor and testdata
+// (go command, zip.Create's vendored-package rule), names starting with '_' or '.' (ignored by go/build).
+// dirhash treats none of them specially: DirFiles lists, HashDir and HashZip hash, every regular file, and
+// module.CheckFilePath accepts all of them, so a module zip may contain files below such directories.
+// Names drawn from the generic element pools never spell one of them as a DIRECTORY with a regular file
+// below it, so the class "tree with a file below a specially named directory, at any depth" was missing
+// from the dirfiles/hashdir ops, the module-zip ops and the zip/dir oracle. c19GenTree now inserts one of
+// these names as a non-final element of a path (any position, so depth 2..4) in a share of the paths, and
+// sometimes uses one as a file name.
+var c19SpecialElems = []string{".git", ".hg", ".svn", ".bzr", "vendor", "testdata", "_x", ".x"}
+
+// c19BelowSpecial reports the special directory names that have a file below them in rels.
+func c19BelowSpecial(rels []string) []string {
+	seen := map[string]bool{}
+	var out []string
+	for _, p := range rels {
+		parts := strings.Split(p, "/")
+		for _, e := range parts[:len(parts)-1] {
+			for _, s := range c19SpecialElems {
+				if e == s && !seen[s] {
+					seen[s] = true
+					out = append(out, s)
+				}
+			}
+		}
+	}
+	sort.Strings(out)
+	return out
+}
+
+// c19SpecialTags: evidence tags for trees with files below specially named directories.
+func c19SpecialTags(rels []string, tags ...string) []string {
+	for _, s := range c19BelowSpecial(rels) {
+		tags = append(tags, "file-below:"+s)
+	}
+	return tags
+}
+
+// c19CreateOmits: zip.Create silently leaves out files of vendored packages (zip.isVendoredPackage; for
+// a go.mod without go line also x/vendor/f, golang.org/issue/37397). That is a rule of the zip package,
+// not of dirhash, and the model's hashModZip has every listed file in the archive (checks/C19.json,
+// trusted base), so the hashmodzip/hashunzip OPS keep "vendor" only where Create keeps the file: as a file
+// name, or as the top-level directory with the file directly in it. The oracle, which reads the archive
+// back, uses all trees.
+func c19CreateOmits(p string) bool {
+	parts := strings.Split(p, "/")
+	for i, e := range parts[:len(parts)-1] {
+		if e == "vendor" && !(i == 0 && len(parts) == 2) {
+			return true
+		}
+	}
+	return false
+}
+
 // c19GenTree returns a consistent set of relative slash paths (no path is both file and directory).
 func c19GenTree(r *Rand, elems []string, fold bool) []string {
 	k := r.Intn(7)
@@ -711,6 +766,13 @@ func c19GenTree(r *Rand, elems []string, fold bool) []string {
 		}
 		for len(parts) < depth {
 			parts = append(parts, r.Pick(elems))
+		}
+		switch sp := r.Intn(100); {
+		case sp < 18: // a specially named directory somewhere above the file
+			at := r.Intn(len(parts))
+			parts = append(parts[:at:at], append([]string{r.Pick(c19SpecialElems)}, parts[at:]...)...)
+		case sp < 22: // a file with a special name
+			parts[len(parts)-1] = r.Pick(c19SpecialElems)
 		}
 		p := strings.Join(parts, "/")
 		ok := !files[key(p)] && !dirs[key(p)]
@@ -801,8 +863,18 @@ var c19Mods = []module.Version{
 	{Path: "github.com/Azure/go-x", Version: "v1.2.3-pre.1"},
 }
 
-func c19GenModFiles(r *Rand) (rels, contents []string) {
+// c19GenModFiles: all = also the vendored-package paths that zip.Create leaves out (see c19CreateOmits).
+func c19GenModFiles(r *Rand, all bool) (rels, contents []string) {
 	rels = c19GenTree(r, c19ModElems, true)
+	if !all {
+		kept := rels[:0]
+		for _, p := range rels {
+			if !c19CreateOmits(p) {
+				kept = append(kept, p)
+			}
+		}
+		rels = kept
+	}
 	if r.Chance(60) {
 		dup := false
 		for _, p := range rels {
@@ -924,7 +996,7 @@ func genC19(g *Gen, n int) {
 			}
 			rels := c19GenTree(g.Rand, c19FsElems, false)
 			pfx := c19GenPrefix(g.Rand)
-			g.Emit("dirhash.dirfiles "+kind+" "+hx(pfx)+" "+hxList(rels), len(rels) >= 2 || kind != "dir", "dirfiles", "root-"+kind)
+			g.Emit("dirhash.dirfiles "+kind+" "+hx(pfx)+" "+hxList(rels), len(rels) >= 2 || kind != "dir", c19SpecialTags(rels, "dirfiles", "root-"+kind)...)
 			if g.Chance(60) { // the same directory under another spelling of its path
 				sp := c19GenSpelling(g.Rand)
 				g.Emit("dirhash.dirfilesat "+hx(sp)+" "+kind+" "+hx(pfx)+" "+hxList(rels), len(rels) >= 1 || kind != "dir", "dirfilesat", "spelling:"+sp)
@@ -945,7 +1017,7 @@ func genC19(g *Gen, n int) {
 			}
 			rels := c19GenTree(g.Rand, c19FsElems, false)
 			pfx, contents := c19GenPrefix(g.Rand), c19GenContents(g.Rand, len(rels))
-			hdTags := []string{"hashdir", "root-" + kind}
+			hdTags := c19SpecialTags(rels, "hashdir", "root-"+kind)
 			if kind == "dir" && c19MakeOneBig(g.Rand, 6, rels, contents) {
 				hdTags = append(hdTags, "big-file")
 			}
@@ -976,12 +1048,12 @@ func genC19(g *Gen, n int) {
 			g.Emit("dirhash.hashzip "+hxList(names)+" "+hxList(contents), len(names) >= 2, tags...)
 		case 18:
 			m := c19Mods[g.Intn(len(c19Mods))]
-			rels, contents := c19GenModFiles(g.Rand)
-			g.Emit("dirhash.hashmodzip "+hx(m.Path)+" "+hx(m.Version)+" "+hxList(rels)+" "+hxList(contents), len(rels) >= 2, c19BigTag(contents, "modzip")...)
+			rels, contents := c19GenModFiles(g.Rand, false)
+			g.Emit("dirhash.hashmodzip "+hx(m.Path)+" "+hx(m.Version)+" "+hxList(rels)+" "+hxList(contents), len(rels) >= 2, c19SpecialTags(rels, c19BigTag(contents, "modzip")...)...)
 		default:
 			m := c19Mods[g.Intn(len(c19Mods))]
-			rels, contents := c19GenModFiles(g.Rand)
-			g.Emit("dirhash.hashunzip "+hx(m.Path)+" "+hx(m.Version)+" "+hxList(rels)+" "+hxList(contents), len(rels) >= 2, c19BigTag(contents, "unzip")...)
+			rels, contents := c19GenModFiles(g.Rand, false)
+			g.Emit("dirhash.hashunzip "+hx(m.Path)+" "+hx(m.Version)+" "+hxList(rels)+" "+hxList(contents), len(rels) >= 2, c19SpecialTags(rels, c19BigTag(contents, "unzip")...)...)
 		}
 	}
 }
@@ -1163,6 +1235,10 @@ func oracleC19(g *Gen, n int) {
 		if g.Chance(40) {
 			c19OracleZipDir(g)
 		}
+		// (6) directory trees against the formula, with files below specially named directories
+		if g.Chance(25) {
+			c19OracleDirFormula(g)
+		}
 	}
 }
 
@@ -1265,7 +1341,10 @@ func c19OracleSpellings(g *Gen, scratch, dir, prefix, hz string, errz error, rep
 // "path@version" (with and without the trailing slash), also for zip.CreateFromDir.
 func c19OracleZipDir(g *Gen) {
 	m := c19Mods[g.Intn(len(c19Mods))]
-	rels, contents := c19GenModFiles(g.Rand)
+	rels, contents := c19GenModFiles(g.Rand, true)
+	if below := c19BelowSpecial(rels); len(below) > 0 {
+		g.Case("zip-dir-agree-file-below-special-dir")
+	}
 	replay := "dirhash.hashmodzip " + hx(m.Path) + " " + hx(m.Version) + " " + hxList(rels) + " " + hxList(contents)
 	replay2 := "dirhash.hashunzip " + hx(m.Path) + " " + hx(m.Version) + " " + hxList(rels) + " " + hxList(contents)
 	scratch := c19Scratch()
@@ -1312,8 +1391,32 @@ func c19OracleZipDir(g *Gen) {
 	if !c19OracleSpellings(g, scratch, dir, prefix, hz, errz, replay2, rels, contents) {
 		return
 	}
-	// and both equal the documented formula over the (prefix/rel, content) pairs
-	if !fromDir {
+	// and both equal the documented formula over the files that are there: the entries of the archive as
+	// archive/zip lists them, the regular files of the extraction directory as a walk of our own finds
+	// them (gap r4-C19-b: neither side may leave out or add a file, whatever its directories are called)
+	if zn, zc, err := c19ReadZip(z); err == nil && c19Distinct(zn) {
+		g.Case("zip-formula-over-archive-entries")
+		mm := map[string]string{}
+		for i := range zn {
+			mm[zn[i]] = zc[i]
+		}
+		if want := c19DocHash(c19DocSummary(zn, func(s string) string { return mm[s] })); hz != want {
+			g.Fail("HashZip of a module zip differs from the documented formula over the entries of the archive", hz+" want "+want, replay)
+			return
+		}
+	}
+	if wr, wc, err := c19WalkTree(dir); err == nil {
+		g.Case("dir-formula-over-walked-files")
+		if !c19CheckDirFormula(g, dir, prefix, wr, wc, replay2) {
+			return
+		}
+	}
+	// for zip.Create without files it leaves out: the formula over the listed (prefix/rel, content) pairs
+	omits := false
+	for _, r := range rels {
+		omits = omits || c19CreateOmits(r)
+	}
+	if !fromDir && !omits {
 		var names []string
 		for _, r := range rels {
 			names = append(names, prefix+"/"+r)
@@ -1326,4 +1429,130 @@ func c19OracleZipDir(g *Gen) {
 			g.Fail("HashZip of a created module zip differs from the documented formula", hz+" want "+want, replay)
 		}
 	}
+}
+
+// c19ReadZip lists the entries of an archive with archive/zip (names and contents, in archive order).
+func c19ReadZip(zipPath string) (names, contents []string, err error) {
+	zr, err := archzip.OpenReader(zipPath)
+	if err != nil {
+		return nil, nil, err
+	}
+	defer zr.Close()
+	for _, f := range zr.File {
+		rc, err := f.Open()
+		if err != nil {
+			return nil, nil, err
+		}
+		b, err := io.ReadAll(rc)
+		rc.Close()
+		if err != nil {
+			return nil, nil, err
+		}
+		names = append(names, f.Name)
+		contents = append(contents, string(b))
+	}
+	return names, contents, nil
+}
+
+// c19WalkTree finds the regular files below root with os.ReadDir (no filepath.Walk, no skipping of any
+// name): relative slash paths and contents. Anything that is not a directory or a regular file is an error
+// (the trees of the oracle have none).
+func c19WalkTree(root string) (rels, contents []string, err error) {
+	var walk func(dir, rel string) error
+	walk = func(dir, rel string) error {
+		ents, err := os.ReadDir(dir)
+		if err != nil {
+			return err
+		}
+		for _, e := range ents {
+			p, r := filepath.Join(dir, e.Name()), e.Name()
+			if rel != "" {
+				r = rel + "/" + e.Name()
+			}
+			switch {
+			case e.IsDir():
+				if err := walk(p, r); err != nil {
+					return err
+				}
+			case e.Type().IsRegular():
+				b, err := os.ReadFile(p)
+				if err != nil {
+					return err
+				}
+				rels = append(rels, r)
+				contents = append(contents, string(b))
+			default:
+				return fmt.Errorf("irregular file %s", p)
+			}
+		}
+		return nil
+	}
+	err = walk(root, "")
+	return
+}
+
+// c19CheckDirFormula: for a clean relative prefix without "." and ".." elements (a module path@version),
+// DirFiles(dir, prefix) lists exactly prefix/rel for every regular file rel below dir, and HashDir(dir,
+// prefix) is the documented formula over the (prefix/rel, content) pairs - refused iff a name has a newline.
+func c19CheckDirFormula(g *Gen, dir, prefix string, rels, contents []string, replay ...string) bool {
+	names := make([]string, len(rels))
+	mm := map[string]string{}
+	for i, r := range rels {
+		names[i] = prefix + "/" + r
+		mm[names[i]] = contents[i]
+	}
+	var got []string
+	if e := c19Guard(func() (e error) { got, e = dirhash.DirFiles(dir, prefix); return }); e != nil {
+		g.Fail("DirFiles fails on a directory of regular files", e.Error(), replay...)
+		return false
+	}
+	a, b := append([]string(nil), got...), append([]string(nil), names...)
+	sort.Strings(a)
+	sort.Strings(b)
+	if strings.Join(a, "\x00") != strings.Join(b, "\x00") {
+		g.Fail("DirFiles does not list exactly prefix/rel for every regular file below the directory",
+			fmt.Sprintf("listed %q, files %q", a, b), replay...)
+		return false
+	}
+	var hd string
+	e := c19Guard(func() (e error) { hd, e = dirhash.HashDir(dir, prefix, dirhash.Hash1); return })
+	if c19HasNL(names) {
+		if e == nil || hd != "" {
+			g.Fail("HashDir does not refuse a directory with a newline in a file name", hd, replay...)
+			return false
+		}
+		return true
+	}
+	if e != nil {
+		g.Fail("HashDir fails on a directory of regular files with newline-free names", e.Error(), replay...)
+		return false
+	}
+	if want := c19DocHash(c19DocSummary(names, func(s string) string { return mm[s] })); hd != want {
+		g.Fail("HashDir differs from the documented formula over the regular files below the directory", hd+" want "+want, replay...)
+		return false
+	}
+	return true
+}
+
+// c19OracleDirFormula (gap r4-C19-b): a plain directory tree (no zip involved) over the file-system element
+// pool and the special-name dictionary, hashed under a module prefix: DirFiles and HashDir against the
+// file set that was written.
+func c19OracleDirFormula(g *Gen) {
+	rels := c19GenTree(g.Rand, c19FsElems, false)
+	contents := c19GenContents(g.Rand, len(rels))
+	m := c19Mods[g.Intn(len(c19Mods))]
+	prefix := m.Path + "@" + m.Version
+	scratch := c19Scratch()
+	defer os.RemoveAll(scratch)
+	dir := filepath.Join(scratch, "c19root")
+	if err := c19MakeTree(dir, "dir", rels, contents); err != nil {
+		return
+	}
+	g.Case("dir-formula")
+	if len(c19BelowSpecial(rels)) > 0 {
+		g.Case("dir-formula-file-below-special-dir")
+	}
+	c19CheckDirFormula(g, dir, prefix, rels, contents,
+		"dirhash.hashdir dir "+hx(prefix)+" "+hxList(rels)+" "+hxList(contents),
+		"dirhash.dirfiles dir "+hx(prefix)+" "+hxList(rels))
 }
